@@ -287,6 +287,11 @@ def run_uniform(doc, log):
             n1, n2 = len(eng1.callbacks), len(eng2.callbacks)
             if abs(n1 - n2) <= 1:
                 raise Discard("borderline-convergence")
+            if doc["items"][0]["umat"]["name"] in world.HISTORY_MATERIALS:
+                # the first iterate of a substep after plastic flow / at the maximum of the history
+                # sits exactly on the switch: which branch the tangent takes per point is decided
+                # by rounding, the iteration histories (not the converged states) may part there
+                raise Discard("iteration-histories-part-at-a-switch")
         raise Violation(PROP, "uniform-knob", f"general region: {type(exc1).__name__ if exc1 else 'converged'}, uniform-grid region: {type(exc2).__name__ if exc2 else 'converged'}", site="Region.uniform")
     if w2.region.dV.shape[-1] != 1:
         raise Violation(PROP, "uniform-knob", "uniform=True did not select the uniform-grid path", site="Region.uniform")
@@ -329,12 +334,12 @@ def check_kinematics_buffers(w, um, log, kind):
         got = f0.grad(out=work)
         got = np.asarray(got)
         want = np.asarray(f0.grad())
-        if got.shape != want.shape or not np.array_equal(got, want):
+        if got.shape != want.shape or not np.array_equal(got, want, equal_nan=True):
             raise Violation(PROP, kind, f"field.grad(out=<array holding {fill}>) differs from field.grad() (max diff {np.nanmax(np.abs(got - want)) if got.shape == want.shape else 'shape'})", site=f"{type(f0).__name__}.grad(out)")
         works = [np.full(a.shape, fill) for a in ref]
         got = w.field.extract(out=works)
         for a, b_ in zip(got, ref):
-            if np.shape(a) != b_.shape or not np.array_equal(np.asarray(a), b_):
+            if np.shape(a) != b_.shape or not np.array_equal(np.asarray(a), b_, equal_nan=True):
                 raise Violation(PROP, kind, f"field.extract(out=<arrays holding {fill}>) differs from field.extract()", site=f"{type(f0).__name__}.extract(out)")
     body = fem.SolidBody(um, w.field)
     r1 = body.assemble.vector(field=w.field).toarray()
@@ -344,7 +349,7 @@ def check_kinematics_buffers(w, um, log, kind):
             a[...] = rng.normal(size=a.shape)
     r2 = body.assemble.vector(field=w.field).toarray()
     K2 = body.assemble.matrix(field=w.field).toarray()
-    if not (np.array_equal(r1, r2) and np.array_equal(K1, K2)):
+    if not (np.array_equal(r1, r2, equal_nan=True) and np.array_equal(K1, K2, equal_nan=True)):
         dr = float(np.abs(r1 - r2).max())
         dK = float(np.abs(K1 - K2).max())
         raise Violation(PROP, kind, f"a body evaluated again at the same field after its handed-out kinematics arrays were overwritten gives other forces / stiffness (max diff {dr:.3e} / {dK:.3e})", site=f"{type(f0).__name__}.kinematics-buffer")
@@ -435,9 +440,9 @@ def run_axi(doc, log):
     sc_ = float(np.abs(f).max()) + 1e-9
     for n_ in range(3):
         fn = fem.IntegralForm([P], v=w.field, dV=w.region.dV).assemble().toarray().reshape(u.shape)
-        if not np.array_equal(P, Pkeep):
+        if not np.array_equal(P, Pkeep, equal_nan=True):
             raise Violation(PROP, "axisymmetric-energy", f"assembling an axisymmetric force form changed the caller's stress array (max change {np.abs(P-Pkeep).max():.3e})", site="IntegralFormAxisymmetric.inputs")
-        if float(np.abs(fn - f).max()) > 1e-10 * sc_:
+        if np.all(np.isfinite(f)) and float(np.abs(fn - f).max()) > 1e-10 * sc_:
             raise Violation(PROP, "axisymmetric-energy", f"assembly {n_ + 1} of the same stress array differs from the body's nodal forces by {np.abs(fn - f).max():.3e}", site="IntegralFormAxisymmetric.repeat")
     st = body.results.stress[0] if isinstance(body.results.stress, (list, tuple)) else body.results.stress
     if st is not None and np.shape(st) == Pkeep.shape and float(np.abs(np.asarray(st) - Pkeep).max()) > 1e-10 * (float(np.abs(Pkeep).max()) + 1e-9):
